@@ -377,6 +377,20 @@ def run_unit(unit, tier, res):
         if n == 1 and len(res.samples) < 12:
             o = call(spec.fn, e.obj)
             res.samples.append({"pred": spec.name, "entry": e.label, "answer": _short(o.val if o.ok else o.exc, 60)})
+    if spec.name in ("isgeneric", "qualname", "name", "origin", "isbuiltinsubtype"):
+        # the answer for a NewType does not depend on the NAME of the module that declares it (here: a module whose name merely
+        # starts with "typing")
+        from ..universe.prelude import mkmod
+
+        other = mkmod("typings_tlg", "import typing\nUserID = typing.NewType('UserID', int)\n")
+        here = mkmod("tlg_c17_twin", "import typing\nUserID = typing.NewType('UserID', int)\n")
+        cold.clear_all()
+        oa, ob = call(spec.fn, here.UserID), call(spec.fn, other.UserID)
+        res.evals += 2
+        res.outcomes.add(h64("module-name", spec.name, "ok" if ob.ok else ob.excname))
+        if oa.ok != ob.ok or (oa.ok and not _eq(oa.val, ob.val)):
+            res.violation(f"C17/{spec.name}/spelling/newtype-in-a-module-named-like-typing", f"{spec.name}(NewType('UserID', int)) declared in module 'tlg_c17_twin' = {_short(oa.val if oa.ok else oa.exc, 60)} "
+                          f"but declared in module 'typings_tlg' = {_short(ob.val if ob.ok else ob.exc, 60)}", {"pred": spec.name, "entry": "int"})
     if spec.name == "unwrap":
         # a type variable inside a qualifier: unwrap() peels the qualifier, what is left is the variable ITSELF (its bound or
         # constraints are a reading the graph applies afterwards, not something unwrap() decides)
